@@ -29,6 +29,36 @@ CLAIMS = {
              '(R6) and the exact progress condition of each forward edge (R7).',
         technique='abstract decision sets vs transition table + graph reachability + must-call + return-path facts (ast)',
         design='4/C08'),
+    'C07': dict(
+        text='Accuracy and completeness of failure detection over tick phase offsets and message delays is NOT decided '
+             '(timing). Decided for every path: the reported instance state has a single guarded writer (R2) and its '
+             'table is the documented graph with ISOLATED final (R3); ISOLATED is never assigned to the local instance '
+             '(R4); the detection chain tick -> inactivity test over all instances -> FAILED, and invalidation (STOPPED/'
+             'ISOLATED, FATAL marking of every process running there) at the start of next() of every state class, is '
+             'unconditional (R5); the threshold is strictly more than inactivity_ticks local ticks, stealth restart '
+             'resets the reference (R6); XML-RPC failure path posts and reads INSTANCE_FAILURE (R7).',
+        technique='who-may-write + table constraints + must-call chains over the class hierarchy + normalised comparison (ast)',
+        design='4/C07'),
+    'C16': dict(
+        text='Absence of every internal error is undecidable; decided are the error classes whose absence is visible in '
+             'the shape of the code, for every path: every Supervisor callback is under the last-resort guard (R0); no '
+             'explicitly raised exception reaches that guard and only RPCError leaves an XML-RPC method '
+             '(interprocedural escape analysis, R1); InvalidTransition is dead - every instance-state assignment is '
+             'legal from every state the guards in front of it (and its callers) allow (typestate, R2); nullable '
+             'notification payloads are tested by their consumers (R3); optional placement results are tested before '
+             'use (R4); enum dispatches are total (R5); resolved-vs-raw RPC parameters (R7); no container is mutated '
+             'while iterated (R8).',
+        technique='interprocedural exception-escape analysis + typestate with guard refinement over the call graph + nullability (ast)',
+        design='4/C16'),
+    'C17': dict(
+        text='Decides for every public XML-RPC method (44) x every Supvisors state: the admitted state set resolved from '
+             'its gate helper equals the documented one (R1); the gate is the first call evaluated and every rejection '
+             'and parameter validator precedes every effect call, validators never fall through (R2); every documented '
+             'rejection code is implemented by a reachable _raise (R3); only RPCError can leave (R4). Deep equality of '
+             'the state before/after a rejected call is not decided beyond "no effect call before the last rejecting '
+             'check".',
+        technique='gate matrix extraction + statement-order dominance + docstring/code agreement + escape analysis (ast)',
+        design='4/C17'),
 }
 
 PENDING_REASON = 'check not implemented yet in this revision (static rules designed in DESIGN.md section 4)'
